@@ -97,17 +97,21 @@ func (pm *ProcessorManager) GetProcessorInstance(
 	return processorInstance, found
 }
 
-// GetProcessorDefinition returns a processor definition by name
+// GetProcessorDefinitionByKey returns the definition of the processor a reference of the
+// given flow points to. The reference is resolved the way the graph node builder resolves it
+// to an instance: a reference that names the flow which created the processor ("Flow.key")
+// means that flow's processor - also when the referencing flow has a processor under the same
+// key - and a plain key means the referencing flow's own processor.
 func (pm *ProcessorManager) GetProcessorDefinitionByKey(
 	flowName string,
 	procRef internaltypes.ProcessorRefI,
 ) *streamtypes.ProcessorDefinition {
-	if processorDefs, found := pm.processorDefsByKey[flowName]; found &&
-		processorDefs[procRef.GetName()] != nil {
-		return processorDefs[procRef.GetName()]
+	createdByFlow := flowName
+	if procRef.GetCreatedByFlow() != "" {
+		createdByFlow = procRef.GetCreatedByFlow()
 	}
 
-	if processorDefs, found := pm.processorDefsByKey[procRef.GetCreatedByFlow()]; found {
+	if processorDefs, found := pm.processorDefsByKey[createdByFlow]; found {
 		return processorDefs[procRef.GetName()]
 	}
 
